@@ -69,7 +69,8 @@ MFails(m, o) == (IF OpOnce(m, o) THEN {} ELSE {"OpOnce"}) \cup (IF InDeclaredPor
 \* Serving histories: the document is also fetched after each history in ServeHistories of the objects that serve it (the shared
 \* Wsdl11 object of the application, one or two WSGI transports over it); what is served is THE document whatever the history:
 \* its unresolved references are reported with the history's name as prefix and its digest joins the list as well.
-ServeHistories == {"prebuilt", "prebuilt, again", "second transport", "first transport, after the second", "direct", "direct, after serving"}
+ServeHistories == {"prebuilt", "prebuilt, again", "second transport", "first transport, after the second", "direct", "direct, after serving",
+                   "built twice", "retry after a failed build"}
 \*   d = [wellformed, unresolved (sequence of QName references that resolve to nothing), digests (one per hash seed / repetition), nops]
 Closed(d) == d.wellformed /\ d.unresolved = <<>>
 Deterministic(d) == \A i, j \in 1..Len(d.digests) : d.digests[i] = d.digests[j]
